@@ -10,8 +10,11 @@ check("C11", "model_checking",
       "and the expected codes of tests/samples), the renderers (one declaration per line). Cells where the documentation is silent "
       "are unconstrained (spec/UNCONSTRAINED-modules.md: about 2/3 of the type x position cells, e.g. everything with [:]T or (T), "
       "[N]T parameters). Bound: quick <= 4 declarations (all permutations up to 3, all labelled graphs in file order for 4; pointer and "
-      "self references up to 3), thorough all permutations of 4; types to depth 3 over 6 leaves (+10 primitive leaves to depth 1/2); "
-      "400 (5000) generated programs x 6 (8) orders. Which member of a cycle carries the diagnostic is not compared.",
+      "self references up to 3; words as a third kind up to 3; the chain of 6 declarations plus one more reference in 6 file orders; "
+      "12 spellings of a reference), thorough all permutations of 4; types to depth 3 over 6 leaves (+10 primitive leaves to depth 1/2), "
+      "pub/extern flags on every cell of depth <= 2, pairs of declarations (19 first cells x every cell of depth <= 1), duplicates in "
+      "3 / last / first+last / two-file positions; 400 (5000) generated programs x 6 (8) orders, every fourth with every kind of "
+      "declaration (40 declarations). Which member of a cycle carries the diagnostic is not compared.",
       "TLA+ specs (Containers.tla: rule, algorithm model, Gen; Positions.tla: rule, transcribed table, Gen) + TLC, replay of every case, "
       "TLC trace validation of hook events and of metamorphic permutation records",
       "DESIGN.md section 5 C11")
